@@ -143,3 +143,11 @@ package structs
 //@   assumed
 //@   modifies nodeRes.GlobalSearchErrors, mapof(nodeRes.GlobalSearchErrors), fieldsof(SearchErrorInfo)
 //@ end
+
+// frame of the cached column name of a measure (used by streamstats, C06): only
+// the cache field of this aggregator is written
+//@ func (*MeasureAggregator).String
+//@   props C06
+//@   requires ma != nil
+//@   modifies ma.StrEnc
+//@ end
